@@ -187,8 +187,8 @@ def first_jobs(rng):
         e0, e1 = cpr.encode(lat, lon, 0, True), cpr.encode(lat, lon, 1, True)
         if cpr.near_transition(e0["rlat"], 1e-6) or cpr.near_transition(e1["rlat"], 1e-6) or cpr.NL(e0["rlat"]) != cpr.NL(e1["rlat"]):
             continue
-        f0 = frames.tohex(frames.df17(rng.getrandbits(24), cpr.me_surface(6, 0, e0["yz"], e0["xz"], rng.getrandbits(7), 1, rng.getrandbits(7), 0)), 112, "U")
-        f1 = frames.tohex(frames.df17(rng.getrandbits(24), cpr.me_surface(6, 1, e1["yz"], e1["xz"], rng.getrandbits(7), 1, rng.getrandbits(7), 0)), 112, "U")
+        f0 = frames.tohex(frames.df17(gen.addr24(rng), cpr.me_surface(6, 0, e0["yz"], e0["xz"], rng.getrandbits(7), 1, rng.getrandbits(7), 0)), 112, "U")
+        f1 = frames.tohex(frames.df17(gen.addr24(rng), cpr.me_surface(6, 1, e1["yz"], e1["xz"], rng.getrandbits(7), 1, rng.getrandbits(7), 0)), 112, "U")
 
         def judge(got, e1=e1):
             try:
